@@ -588,6 +588,10 @@ func (g *G) Value(depth int) types.Value {
 		ip, _ := types.ParseIPAddr(pick(g, ips))
 		return ip
 	case 7:
+		if g.T.Intn(4) == 3 {
+			// instants outside the years 0000..9999 and the extremes of the representation
+			return types.NewDatetimeFromMillis(pick(g, []int64{253402300800000, 253402300800000 + 86400000*400, -62198755200001, -62167219200001, 9223372036854775807, -9223372036854775808, 4102444800000}))
+		}
 		dt, _ := types.ParseDatetime(pick(g, datetimes))
 		return dt
 	case 8:
